@@ -55,6 +55,10 @@ def corpus():
         add(v)
     for v in ((), (1,), ("a", "b"), (1, 2), (1, 2, 3), ((1,),), (1, "a", None), (2020, 1, 2), (1, 2, 3, 4), (0, 0, 0, 0, 0, 0)):
         add(v)
+    # the (sign, digits, exponent) form of Decimal(), well-formed and with ints beyond the C range
+    for v in ((0, (1, 2), -1), (1, (1, 2), "F"), (0, "1", "."), (10 ** 20, (1,), 0), (0, (1,), 10 ** 20), (0, (10 ** 20,), 0),
+              [0, [1], 10 ** 20], [0, [1, 5], -1]):
+        add(v)
     for v in (set(), {1}, {"a", "b"}, frozenset(), frozenset({1, 2})):
         add(v)
     out.append(lambda: collections.deque([1, 2]))
